@@ -108,8 +108,11 @@ def judge(c, impl, model):
     texts = [me for me in find(c, 'modules')[1:] if tag(me) == 'tmodule']
     if texts:
         # hand-made corpus text: same result, same error position
-        if io != mo:
-            fs.append(Finding('K', 'C18/parser-model-differs', cid, canon.first_diff(io, mo) or ''))
+        if io != mo and find(c, 'skipk') is None:
+            if len(io) == len(mo) and all(tag(a) == 'perr' and tag(b) == 'perr' or a == b for a, b in zip(io[1:], mo[1:])):
+                count(info, 'error-position-differs')
+            else:
+                fs.append(Finding('K', 'C18/parser-model-differs', cid, canon.first_diff(io, mo) or ''))
         for r in io[1:]:
             count(info, 'corpus-' + tag(r))
             if tag(r) == 'perr':
@@ -180,7 +183,11 @@ def judge_all(cases, impl, model, tier):
                 if not (1 <= r[2] <= nlines + 1):
                     fs.append(Finding('O', 'C18/error-position-outside-text', cid, dump(r)))
         if io != mo:
-            fs.append(Finding('K', 'C18/parser-model-differs', cid, canon.first_diff(io, mo) or ''))
+            if tag(io[1]) == 'perr' and tag(mo[1]) == 'perr':
+                # both reject; the exact position syn attaches to an error is not part of the property
+                info['dist'].append('error-position-differs')
+            else:
+                fs.append(Finding('K', 'C18/parser-model-differs', cid, canon.first_diff(io, mo) or ''))
     # one finding per reason is enough for the report; keep the first few
     return fs, info, second
 
